@@ -394,6 +394,39 @@ theorem fsc_fwt_derivation (fsci fwi maxSend : Nat) :
     omega
 
 example : mkPcd 2 11 24 = { pni := 0, miu := 21, nNak := 1, nAck := 1 } := by decide
+theorem t0_bits : ∀ (f : Fin 16) (a b c : Bool),
+    ((f.val ||| (if a then 0x10 else 0) ||| (if b then 0x20 else 0) ||| (if c then 0x40 else 0)) &&& 0x0F = f.val) ∧
+    (((f.val ||| (if a then 0x10 else 0) ||| (if b then 0x20 else 0) ||| (if c then 0x40 else 0)) &&& 0x10 ≠ 0) ↔ a = true) ∧
+    (((f.val ||| (if a then 0x10 else 0) ||| (if b then 0x20 else 0) ||| (if c then 0x40 else 0)) &&& 0x20 ≠ 0) ↔ b = true) := by
+  decide
+
+/-- **ATS evaluation (Type 4A).** For every Answer To Select laid out as in ISO/IEC 14443-4 - FSCI 0..15 in T0, any
+subset of TA(1), TB(1), TC(1) present, any historical bytes - activation derives the parameters from the FSCI
+announced in T0 and from the FWI in TB(1), or FWI 4 when TB(1) is absent. -/
+theorem ats_derivation (fsci : Nat) (hf : fsci < 16) (ta tb tc : Option Nat) (hist : Bytes) (maxSend : Nat) :
+    activateA (mkAts fsci ta tb tc hist) maxSend =
+      .ok (mkPcd fsci (match tb with | some b => b >>> 4 | none => 4) maxSend) := by
+  obtain ⟨h1, h2, h3⟩ := t0_bits ⟨fsci, hf⟩ ta.isSome tb.isSome tc.isSome
+  simp only at h1 h2 h3
+  unfold activateA mkAts
+  simp only [List.getElem?_cons_succ, List.getElem?_cons_zero, h1]
+  cases ta <;> cases tb <;> cases tc <;> simp_all
+
+/-- an ATS that consists of the length byte only: the defaults FSCI 2 (32 octets) and FWI 4 -/
+theorem ats_tl_only (maxSend : Nat) : activateA [1] maxSend = .ok (mkPcd 2 4 maxSend) := rfl
+
+/-- **Block bound after a Type 4A activation**: whatever the shape of the ATS, every block of a following exchange fits
+the frame size the card announced in T0 (and the device limit). -/
+theorem isodep_block_bound_ats (cfg : CardCfg) (F : Nat) (fsci : Nat) (hf : fsci < 16) (ta tb tc : Option Nat)
+    (hist : Bytes) (maxSend : Nat) (cmd : Bytes) (script : List Fault) (hdev : 4 ≤ maxSend) (hcmd : cmd ≠ []) :
+    ∃ pcd, activateA (mkAts fsci ta tb tc hist) maxSend = .ok pcd ∧
+      ∀ b ∈ (exchange (isoPeer cfg) F pcd cmd ⟨Card.init, script, []⟩).1.trace,
+        b.length + 2 ≤ maxSend ∧ b.length + 2 ≤ fscTable.getD (min fsci 8) 256 :=
+  ⟨_, ats_derivation fsci hf ta tb tc hist maxSend,
+    isodep_block_bound_derived cfg F fsci _ maxSend cmd script hdev hcmd⟩
+
+example : activateA [2, 0x00] 256 = .ok { pni := 0, miu := 13, nNak := 5, nAck := 5 } := by decide
+example : activateA (mkAts 1 none (some 0xB0) (some 2) [0x80, 0x01]) 256 = .ok { pni := 0, miu := 21, nNak := 1, nAck := 1 } := by decide
 example : activateA [5, 0x78, 0x80, 0x70, 0x02] 256 = .ok { pni := 0, miu := 253, nNak := 5, nAck := 5 } := by decide
 
 end NfcVerif.C12
